@@ -375,6 +375,10 @@ func pathRec(t T, fold bool, seen map[string]bool) string {
 			return "named(…)"
 		}
 		seen[t.N] = true
+		if u := under(t); fold && u.isBasic() {
+			delete(seen, t.N)
+			return "named(basic)"
+		}
 		s := "named(" + pathRec(under(t), fold, seen) + ")"
 		delete(seen, t.N)
 		return s
